@@ -264,10 +264,20 @@ func checkSet(r *ev.Run, ds []def, family string) {
 	for i, d := range ds {
 		names[i] = d.Name
 	}
-	for _, via := range []string{"direct", "parse"} {
+	// routes: the Spec built by hand (in emerge's order, in reverse order, and asked twice - the second answer is
+	// judged), and the Spec that spec.Parse returns (asked directly, and asked after the parsing table was built)
+	for _, via := range []string{"direct", "parse", "direct-reversed", "direct-twice", "parse-after-table"} {
 		var s *spec.Spec
-		if via == "direct" {
+		if strings.HasPrefix(via, "direct") {
 			s = direct(ds)
+			if via == "direct-reversed" {
+				for i, j := 0, len(s.Definitions)-1; i < j; i, j = i+1, j-1 {
+					s.Definitions[i], s.Definitions[j] = s.Definitions[j], s.Definitions[i]
+				}
+			}
+			if via == "direct-twice" {
+				_, _, _, _ = callDFA(s)
+			}
 		} else {
 			var err error
 			var pan any
@@ -278,6 +288,12 @@ func checkSet(r *ev.Run, ds []def, family string) {
 			if pan != nil || err != nil {
 				r.Add("spec_parse_failures_left_to_C07_C14", 1)
 				continue
+			}
+			if via == "parse-after-table" {
+				func() {
+					defer func() { _ = recover() }()
+					_, _ = s.LALRParsingTable()
+				}()
 			}
 		}
 		in := input{Defs: names, Via: via}
@@ -324,7 +340,7 @@ func main() {
 		r.Finish()
 	}
 	if r.Fork(16) {
-		r.Set("rule", fmt.Sprintf("every subset of up to the size bound of a pool of %d definitions (9 literals incl. escaped quote/backslash/slash, 15 patterns of which 4 also match the empty text and 3 are anchored, 5 predefined patterns; every relation: disjoint, prefix, nested, identical language, literal inside pattern, partial overlap), each given to Spec.DFA directly and through spec.Parse; per set the product of the returned automaton with the reference automata of all definitions is explored; non-trivial = product with > 1 state; distinct by set+route", len(pool)))
+		r.Set("rule", fmt.Sprintf("every subset of up to the size bound of a pool of %d definitions (9 literals incl. escaped quote/backslash/slash, 15 patterns of which 4 also match the empty text and 3 are anchored, 5 predefined patterns; every relation: disjoint, prefix, nested, identical language, literal inside pattern, partial overlap), each given to Spec.DFA directly (in emerge's order, in reverse order, and twice) and through spec.Parse (also after the parsing table was built); per set the product of the returned automaton with the reference automata of all definitions is explored; non-trivial = product with > 1 state; distinct by set+route", len(pool)))
 		r.Set("evaluations", r.Get("sets"))
 		r.Set("traces_validated_against_impl", r.Get("sets"))
 		r.Finish()
